@@ -267,28 +267,35 @@ def leg2(ctx, bdir):
     if progs:
         o = obsid[progs[0]["id"]]
         ctx.add_sample({"leg": 2, "meta": o["meta"], "prog_head": o["prog"][:6], "input": o["inputs"][1], "observed": o["obs"][1] if o["obs"] else None})
-    nb = 0
-    reported = 0
-    for pid in sorted(set(bad)):
-        rec = byid[pid]
-        nb += 1
-        if reported >= (6 if q else 12):
-            ctx.log(f"... {len(set(bad)) - nb + 1} further disagreeing programs not classified (cap)")
-            ctx.violation("more disagreeing programs than the classification cap; see leg2_obs.ndjson", op) if not ctx.known else None
+    bad = sorted(set(bad))
+    for pid in bad:
+        if obsid[pid].get("status") == "compile_error":
+            raise Broken(f"program {pid}: the Compiler refused a valid program: {obsid[pid].get('msg')}")
+    # attribution: a disagreeing program that agrees once ONE listed proposed fix is applied is that known finding
+    remaining = list(bad)
+    for k in sorted(k for k in ctx.known if k in FIXES):
+        if not remaining:
             break
+        vexe = variant_binary(ctx, bdir, [k])
+        if not vexe:
+            continue
+        bp, bo = ctx.path(f"leg2_attr_{FIXES[k]['n']}.prog.ndjson"), ctx.path(f"leg2_attr_{FIXES[k]['n']}.obs.ndjson")
+        vlib.write_ndjson(bp, [byid[i] for i in remaining])
+        run_obs(ctx, vexe, bp, bo)
+        _, still = judge_obs(ctx, bo, "report", f"attr{FIXES[k]['n']}", workers=4)
+        fixed = [i for i in remaining if i not in set(still)]
+        if fixed:
+            ctx.known_finding(k, ctx.known[k])
+            ctx.log(f"leg 2: {len(fixed)} disagreeing programs agree with proposed fix {FIXES[k]['n']} applied -> known finding {k}")
+        remaining = [i for i in remaining if i in set(still)]
+    ctx.extra["leg2_unexplained"] = len(remaining)
+    for nb, pid in enumerate(remaining[: (6 if q else 12)]):
+        rec = byid[pid]
         ok, sop = strict_single(ctx, exe, rec, f"bad{nb}")
         if ok:
             raise Broken(f"program {pid}: mismatch not reproducible in isolation")
-        if obsid[pid].get("status") == "compile_error":
-            raise Broken(f"program {pid}: the Compiler refused a valid program: {obsid[pid].get('msg')}")
-        keys = classify_leg2(ctx, bdir, rec, nb) if ctx.known else None
-        what = f"x86-64 host run differs from the interpreter: skeleton={rec['meta'][0]} pressure={rec['meta'][1]} mix={rec['meta'][2]} status={obsid[pid].get('status')}"
-        reported += 1
-        if keys:
-            for k in keys:
-                ctx.known_finding(k, ctx.known[k])
-        else:
-            ctx.violation(what + f" (program id {pid}, {len(rec['prog'])} instructions)", sop)
+        ctx.violation(f"x86-64 host run differs from the interpreter: skeleton={rec['meta'][0]} pressure={rec['meta'][1]} mix={rec['meta'][2]} "
+                      f"status={obsid[pid].get('status')} (program id {pid}, {len(rec['prog'])} instructions; {len(remaining)} unexplained programs in total)", sop)
     return progs
 
 
@@ -354,7 +361,6 @@ def leg1(ctx, bdir, progs):
     vlib.write_ndjson(pp, progs)
     byid = {p["id"]: p for p in progs}
     total, unsupported, rejected = 0, {}, 0
-    reported = 0
     for arch in ARCHS:
         fns, why, n = record_and_translate(ctx, exe, arch, pp, "leg1")
         total += len(fns)
@@ -371,32 +377,35 @@ def leg1(ctx, bdir, progs):
             ctx.add_sample({"leg": 1, "arch": arch, "fid": f["fid"], "nloc": f["nloc"], "ops": len(f["code"]), "code_head": f["code"][:5]})
         for f in fns:
             ctx.distinct.add(("leg1", arch, f["fid"], len(f["code"])))
-        for fid in sorted(rej):
-            rejected += 1
-            if reported >= 8:
+        rejected += len(rej)
+        remaining = sorted(rej)
+        for k in sorted(k for k in ctx.known if k in FIXES):
+            if not remaining:
                 break
-            reported += 1
+            vexe = variant_binary(ctx, bdir, [k])
+            if not vexe:
+                continue
+            bp = ctx.path(f"leg1_attr_{arch}_{FIXES[k]['n']}.prog.ndjson")
+            vlib.write_ndjson(bp, [byid[i] for i in remaining])
+            vf, _, _ = record_and_translate(ctx, vexe, arch, bp, f"leg1_attr_{FIXES[k]['n']}")
+            tp2 = ctx.path(f"leg1_attr_{arch}_{FIXES[k]['n']}.tv.ndjson")
+            vlib.write_ndjson(tp2, vf)
+            _, still = judge_tv(ctx, tp2, "report", f"tvattr_{arch}_{FIXES[k]['n']}", workers=4)
+            ok_ids = {f["fid"] for f in vf} - set(still)
+            fixed = [i for i in remaining if i in ok_ids]
+            if fixed:
+                ctx.known_finding(k, ctx.known[k])
+                ctx.log(f"leg 1 {arch}: {len(fixed)} rejected functions are accepted with proposed fix {FIXES[k]['n']} applied -> known finding {k}")
+            remaining = [i for i in remaining if i not in ok_ids]
+        for fid in remaining[:4]:
             rec = byid[fid]
             ok, rp = tv_single(ctx, exe, arch, rec, f"rej_{arch}_{fid}")
             if ok is not False:
                 raise Broken(f"{arch} function {fid}: rejection not reproducible in isolation")
-            keys = None
-            if ctx.known:
-                for k in sorted(k for k in ctx.known if k in FIXES):
-                    vexe = variant_binary(ctx, bdir, [k])
-                    if vexe:
-                        ok2, _ = tv_single(ctx, vexe, arch, rec, f"cls_{arch}_{fid}_{FIXES[k]['n']}")
-                        if ok2:
-                            keys = [k]
-                            break
             pc, what = rej[fid]
-            msg = (f"{arch}: translation validation rejects program {fid} (skeleton={rec['meta'][0]} pressure={rec['meta'][1]} mix={rec['meta'][2]}): "
-                   f"at op {pc} the instruction reads {what} (location, virtual register) but the location does not hold that register's value")
-            if keys:
-                for k in keys:
-                    ctx.known_finding(k, ctx.known[k])
-            else:
-                ctx.violation(msg, rp)
+            ctx.violation(f"{arch}: translation validation rejects program {fid} (skeleton={rec['meta'][0]} pressure={rec['meta'][1]} mix={rec['meta'][2]}): "
+                          f"at op {pc} the instruction reads {what} (location, virtual register) but the location does not hold that register's value; "
+                          f"{len(remaining)} unexplained functions for this architecture", rp)
     ctx.extra["leg1_functions"] = total
     ctx.extra["leg1_rejected"] = rejected
     ctx.extra["leg1_unsupported"] = unsupported
